@@ -301,6 +301,18 @@ class Intervals:
         k = c["k"]
         if k == "UnaryOperator" and c.get("op") == "!":
             return self.refine(env, kids(c)[0], not pol)
+        if k in ("CallExpr", "CXXMemberCallExpr") and c.get("calleeId"):
+            # a one-line pure predicate of the code base (is_dec_digit(c)): refine by its body on the arguments
+            from .cfg import _pure_predicate, _subst_params, call_args as _ca
+            g_ = getattr(self.F, "_by_id", {}).get(c["calleeId"])
+            e_ = _pure_predicate(g_) if g_ is not None else None
+            if e_ is not None and len(_ca(c)) == len(g_.params) and not getattr(self, "_inl", 0):
+                binding = {p_["declId"]: strip(a_) for p_, a_ in zip(g_.params, _ca(c))}
+                self._inl = 1
+                try:
+                    return self.refine(env, _subst_params(strip(e_), binding), pol)
+                finally:
+                    self._inl = 0
         if k == "BinaryOperator" and c.get("op") == "&&":
             if pol:
                 e = self.refine(env, kids(c)[0], True)
